@@ -565,6 +565,91 @@ pub fn make_two_pushes(narrow_a: bool) -> crate::ctl::ScenarioFn {
     })
 }
 
+/// DX at the client level (real Client over the in-memory dialer seam, pushing scripted TLS server): two requests start
+/// on an empty pool; one session's push may be handled while the other session is still being created. Every session
+/// must be self-consistent: its preamble padding is line 0 of the scheme whose md5 its settings frame announces.
+pub fn make_create_during_push() -> crate::ctl::ScenarioFn {
+    use crate::cworld::*;
+    scenario(move || async move {
+        let mut out = Outcome::default();
+        let c_text = "stop=8\n0=40-40\n1=100-100\n2=100-100\n3=100-100\n4=100-100\n5=100-100\n6=100-100\n7=100-100";
+        let s_text = "stop=8\n0=77-77\n1=200-200\n2=200-200\n3=200-200\n4=200-200\n5=200-200\n6=200-200\n7=200-200";
+        // the process default is what earlier executions left behind: start from scheme C every time
+        if PaddingFactory::update_default(c_text.as_bytes()).is_err() {
+            out.viol("harness:scheme", "cannot install scheme C");
+            return out;
+        }
+        let w = CWorld::start_pushing(PaddingFactory::default(), quiet_pool(1), Answer::Ok, Some(s_text.to_string()));
+        let mut hs = vec![];
+        for t in 0..2u16 {
+            let c = w.client.clone();
+            hs.push(tokio::spawn(async move {
+                crate::ctl::hpoint("h.c19.req").await;
+                let r = within(c.create_proxy_stream(("example.com".to_string(), 3001 + t))).await;
+                match r {
+                    Some(Ok(x)) => {
+                        std::mem::forget(x);
+                        true
+                    }
+                    _ => false,
+                }
+            }));
+        }
+        let mut ok = true;
+        for h in hs {
+            ok &= h.await.unwrap_or(false);
+        }
+        settle().await;
+        tokio::time::sleep(Duration::from_millis(50)).await;
+        // a third request afterwards: sessions opened after the push announce and use the pushed scheme
+        let third = within(w.client.create_proxy_stream(("example.com".to_string(), 3009))).await;
+        if let Some(Ok(x)) = third {
+            std::mem::forget(x);
+        } else {
+            ok = false;
+        }
+        settle().await;
+        let logs = w.logs();
+        let md5_of = |t: &str| format!("{:x}", md5::compute(t.as_bytes()));
+        let (mc, ms) = (md5_of(c_text), md5_of(s_text));
+        let mut obs = vec![];
+        for (i, l) in logs.iter().enumerate() {
+            let Some(set) = l.frames.iter().find(|f| f.cmd == SETTINGS) else { continue };
+            let announced = String::from_utf8_lossy(&set.data).lines().find_map(|x| x.strip_prefix("padding-md5=").map(|y| y.trim().to_string())).unwrap_or_default();
+            let which = if announced == mc { "C" } else if announced == ms { "S" } else { "?" };
+            obs.push(format!("conn{i}: pad0={} announces {which}", l.preamble_pad));
+            let want_pad = match which {
+                "C" => 40,
+                "S" => 77,
+                _ => {
+                    out.viol("C19:new-session-announces-unknown-scheme", format!("connection {i} announces padding-md5 {announced}, neither the configured nor the pushed scheme"));
+                    continue;
+                }
+            };
+            if l.preamble_pad != want_pad {
+                out.viol("C19:new-session-announces-one-scheme-and-uses-another", format!("connection {i} (created while another session's push was being handled) sent a preamble with {} bytes of padding and announces scheme {which}, whose line 0 prescribes {want_pad}", l.preamble_pad));
+            }
+        }
+        if let Some(l) = logs.last()
+            && logs.len() >= 2
+        {
+            // the session of the third request was opened after a push had been handled
+            let set = l.frames.iter().find(|f| f.cmd == SETTINGS);
+            let announced = set.map(|s| String::from_utf8_lossy(&s.data).to_string()).unwrap_or_default();
+            if logs.len() >= 3 && !announced.contains(&ms) {
+                out.viol("C19:later-session-announces-old-scheme", format!("the session dialled for a request issued after the push announces {:?}", announced));
+            }
+        }
+        out.obs = obs.join("; ");
+        if !ok {
+            out.viol("C19:session-disturbed", format!("a request failed: {}", out.obs));
+        }
+        w.client.stop_session_pool_cleanup().await;
+        drop(w);
+        out
+    })
+}
+
 fn two_push_items(tier: Tier) -> Vec<crate::dxrun::DxItem> {
     let mut v = vec![];
     for narrow in [true, false] {
@@ -574,6 +659,10 @@ fn two_push_items(tier: Tier) -> Vec<crate::dxrun::DxItem> {
         it.exec.quiesce = true;
         v.push(it);
     }
+    let mut it = crate::dxrun::DxItem::new(json!({"part": "session created while another session's push is handled (real Client, in-memory dialer)"}), make_create_during_push(), if tier.is_thorough() { 2 } else { 1 });
+    it.exec.long_yield = 3;
+    it.exec.quiesce = true;
+    v.push(it);
     v
 }
 
